@@ -1,11 +1,60 @@
 (** Property C08 — the Go language server always holds the compilation of the current buffer.
-    OBLIGATIONS: C08_nonvacuous *)
-From GV Require Import Compiler.Compile.
+    Theorems are about Proxy/Proxy.v (state machine model of internal/proxy, tied to the real proxy by the
+    L-PROXY correspondence) and hold for every compiler [compile] and every history.
+    OBLIGATIONS: C08_coherent_after_any_history C08_open_payload C08_change_payload C08_save_payload
+      C08_close_forwards C08_no_template_uri_downstream C08_nonvacuous *)
+From GV Require Import Proxy.Proxy Proofs.ProxyProofs.
 
+(** after any sequence of open / change / close / save / requests / gopls messages, for every open template
+    the stored position map and generated code are those of the compilation of its current buffer *)
+Theorem C08_coherent_after_any_history : forall compile es,
+  forallb whole es = true -> Coherent compile (fst (run compile ps_init es)).
+Proof. intros compile es H. apply coherent_run; [exact H|apply coherent_init]. Qed.
+Print Assumptions C08_coherent_after_any_history.
+
+(** didOpen: the generated URI, language id go, the editor's version, the code compiled from the buffer *)
+Theorem C08_open_payload : forall compile st u lang ver text,
+  is_goht_uri u = true ->
+  exists outs, snd (fst (step compile st (EOpen u lang ver text))) =
+                 outs ++ [Ds (DsOpen (to_goht_go u) (lit "go") ver (c_code (compile text)))] /\
+               forall o, In o outs -> exists d, o = Cl (ClDiag u d).
+Proof. exact open_payload. Qed.
+Print Assumptions C08_open_payload.
+
+Theorem C08_change_payload : forall compile st u ver text old,
+  is_goht_uri u = true -> lookup u (ps_srcs st) = Some old ->
+  exists outs, snd (fst (step compile st (EChange u ver text))) =
+                 outs ++ [Ds (DsChange (to_goht_go u) ver (c_code (compile text)))] /\
+               forall o, In o outs -> exists d, o = Cl (ClDiag u d).
+Proof. exact change_payload. Qed.
+Print Assumptions C08_change_payload.
+
+(** didSave: the text sent is the generated code of the current buffer, never what the editor sent *)
+Theorem C08_save_payload : forall compile st u t text,
+  is_goht_uri u = true -> Coherent compile st -> lookup u (ps_srcs st) = Some text ->
+  snd (fst (step compile st (ESave u (Some t)))) = [Ds (DsSave (to_goht_go u) (Some (c_code (compile text))))].
+Proof. exact save_payload. Qed.
+Print Assumptions C08_save_payload.
+
+Theorem C08_close_forwards : forall compile st u,
+  is_goht_uri u = true -> snd (fst (step compile st (EClose u))) = [Ds (DsClose (to_goht_go u))].
+Proof. exact close_forwards. Qed.
+Print Assumptions C08_close_forwards.
+
+Theorem C08_no_template_uri_downstream : forall u, is_goht_uri (to_goht_go u) = false.
+Proof. exact generated_uri_not_template. Qed.
+Print Assumptions C08_no_template_uri_downstream.
+
+(** non-vacuity: a history with an invalid buffer in it, run with the Coq compiler model *)
 Example C08_nonvacuous :
-  match lsp_compose (lit "package x" ++ [10] ++ lit "@goht T() {" ++ [10] ++ lit "  %p two spaces" ++ [10] ++ lit "}" ++ [10]) with
-  | Some (code, _, None) => has_prefix c_header code   (* an invalid buffer still yields code for its partial tree *)
-  | _ => false
+  let u := lit "file:///w/a.goht" in
+  let good := lit "package x" ++ [10] ++ lit "@goht T() {" ++ [10; 9] ++ lit "%p ok" ++ [10] ++ lit "}" ++ [10] in
+  let bad := lit "package x" ++ [10] ++ lit "@goht T() {" ++ [10] ++ lit "  %p" ++ [10] ++ lit "}" ++ [10] in
+  let es := [EOpen u (lit "goht") 1 good; EChange u 2 bad; ESave u (Some (lit "template text"))] in
+  forallb whole es = true /\
+  match lookup u (ps_gosrcs (fst (run model_compile ps_init es))) with
+  | Some code => beqb code (c_code (model_compile bad))
+  | None => false
   end = true.
-Proof. vm_compute. reflexivity. Qed.
+Proof. split; vm_compute; reflexivity. Qed.
 Print Assumptions C08_nonvacuous.
